@@ -115,9 +115,10 @@ def plan(tier, seed):
     for h in hs:
         nblocks = h.key.split("/")[2].count("x")
         scalar_only = all(part.startswith("s") for part in h.key.split("/")[2].split("_"))
-        if not (scalar_only or nblocks == 1):
+        if not ((scalar_only and h.name.startswith("c11_hcat")) or h.name == "c11_hcat_f64_rd1x3"):
             h.tier = "off"
-            h.off_reason = "matrix blocks next to other blocks (Vec<(Box<dyn CopyMat<T>>, usize)> kernels): out of 9 GB / no verdict in 900 s"
+            h.off_reason = ("matrix blocks next to other blocks, vertical concatenation (also of scalars) and a single 2x2 block "
+                            "(Vec<(Box<dyn CopyMat<T>>, usize)> kernels): out of 9 GB / no verdict in 900 s")
         elif h.tier != "quick":
             h.tier = "quick"
     pre, extracted = {}, {}
@@ -132,9 +133,9 @@ def plan(tier, seed):
         "extracted": extracted,
         "explanation": "Kani/CBMC over impl_horzcat_fxn / impl_vertcat_fxn (pattern tables + allocation) and the concatenation structs with their "
                        "CopyMat kernels, blocks symbolic, shapes concrete",
-        "bounds": "rows and columns of 2-3 scalar blocks, and a single 1x3 / 2x2 block; element kind f64",
-        "outside": ["every concatenation in which a vector or matrix block stands next to another block (no verdict: see excluded_no_verdict) - the "
-                    "element placement of multi-block matrices is therefore NOT decided by this check", "the rejection of blocks whose heights/widths disagree or whose kinds differ: those checks live in matrix()/matrix_row() "
+        "bounds": "rows of 2-3 scalar blocks and a single 1x3 block; element kind f64",
+        "outside": ["every concatenation in which a vector or matrix block stands next to another block, and every vertical concatenation (no verdict: see "
+                    "excluded_no_verdict) - the element placement of multi-block matrices is therefore NOT decided by this check", "the rejection of blocks whose heights/widths disagree or whose kinds differ: those checks live in matrix()/matrix_row() "
                     "(src/interpreter/src/structures.rs), which evaluate syntax nodes with an Interpreter", "more than 3 blocks",
                     "empty / optional elements", "fixed-size storage forms"],
         "caps": {"quick_timeout": 900, "thorough_timeout": 2400, "heavy_jobs": 6, "heavy_rss_gb": 9},
